@@ -381,13 +381,16 @@ type Proxy struct {
 	Call      func(ctx context.Context, tok int) (string, error)
 	CallRetry func(ctx context.Context, tok int) (string, error) `rpc_method:"T.Call" retry:"true"`
 	AliasCall func(ctx context.Context, tok int) (string, error)
-	Notify    func(ctx context.Context, tok int) error `notify:"true"`
-	Add       func(ctx context.Context, tok int, delta int64) (int64, error)
-	Sub       func(ctx context.Context, tok int) (<-chan int, error)
-	SubRetry  func(ctx context.Context, tok int) (<-chan int, error) `rpc_method:"T.Sub" retry:"true"`
-	SubT      func(ctx context.Context, tok int) (<-chan SubElem, error)
-	Rev       func(ctx context.Context, tok int) (string, error)
-	ReadAll   func(ctx context.Context, tok int, r io.Reader) (string, error)
+	// context-less variants (the library passes a nil context along)
+	CallNoCtx      func(tok int) (string, error)            `rpc_method:"T.Call"`
+	CallRetryNoCtx func(tok int) (string, error)            `rpc_method:"T.Call" retry:"true"`
+	Notify         func(ctx context.Context, tok int) error `notify:"true"`
+	Add            func(ctx context.Context, tok int, delta int64) (int64, error)
+	Sub            func(ctx context.Context, tok int) (<-chan int, error)
+	SubRetry       func(ctx context.Context, tok int) (<-chan int, error) `rpc_method:"T.Sub" retry:"true"`
+	SubT           func(ctx context.Context, tok int) (<-chan SubElem, error)
+	Rev            func(ctx context.Context, tok int) (string, error)
+	ReadAll        func(ctx context.Context, tok int, r io.Reader) (string, error)
 }
 
 type Client struct {
